@@ -26,3 +26,7 @@ package forwarder
 //@   ensures[C17] err == nil ==> ccIdsOK(g)
 //@   ensures[C17] err == nil ==> ccIdsDistinct(g)
 //@   ensures[C17c] fwdGenesisOK(g) ==> err == nil
+
+// The default genesis pauses nothing (C17: it is valid; C08: a fresh chain forwards everywhere).
+//@ func DefaultGenesisState() (g)
+//@   ensures[C17,C08] g != nil && len(g.PausedProtocolIds) == 0 && len(g.PausedCrossChainIds) == 0
